@@ -829,7 +829,7 @@ func nmove(wdt float64, subd int, zeit int, g *GlobalVarsMain, l *NitroSharedVar
 			g.C1[z] = 0
 		}
 	}
-	if zeit >= g.SAAT[g.AKF.Index] && zeit <= g.ERNTE2[g.AKF.Index] {
+	if subd == 1 && zeit >= g.SAAT[g.AKF.Index] && zeit <= g.ERNTE2[g.AKF.Index] {
 		g.PESUM = g.PESUM + g.SCHNORR
 	}
 }
